@@ -49,6 +49,8 @@ func TestNLE(t *testing.T) {
 			err = runRetry(t, rep, rng, n)
 		case "brk":
 			err = runBreaker(t, rep, rng, n)
+		case "nats":
+			err = runNATS(rep, rng, n, thorough)
 		default:
 			err = runScenarioMode(t, mode, rep, rng, n, thorough)
 		}
